@@ -266,6 +266,84 @@ func TestC17(t *testing.T) {
 			}
 			rec.Note("san-pairs", fmt.Sprintf("pool of %d GeneralNames, base %s, %d pair cases in this shard", len(pool), base.Name, done))
 		}
+		// the same on an S/MIME subscriber certificate that names a mailbox in its subject: pairs in which at
+		// least one entry is an e-mail-like name - rfc822Names, and SmtpUTF8Mailbox otherNames that are well
+		// formed (the subject's mailbox, another one), not decodable (OCTET STRING, INTEGER, trailing
+		// octets) or empty
+		var sbase *gen.Obj
+		var sMail string
+		for _, ln := range []string{"e_mailbox_address_shall_contain_an_rfc822_name", "e_smime_legacy_aia_shall_have_one_http"} {
+			for _, i := range hm[ln] {
+				pc, ok := gen.ParseCert(co.Certs[i].DER)
+				if !ok || homeClass[ln][i] < 1 || pc.SelfSigned {
+					continue
+				}
+				addr := ""
+				if len(pc.Subject.EmailAddress) > 0 {
+					addr = pc.Subject.EmailAddress[0]
+				} else if strings.Contains(pc.Subject.CommonName, "@") {
+					addr = pc.Subject.CommonName
+				}
+				if addr != "" {
+					sbase, sMail = &co.Certs[i], addr
+					break
+				}
+			}
+			if sbase != nil {
+				break
+			}
+		}
+		if sbase != nil {
+			smtp := []int{1, 3, 6, 1, 5, 5, 7, 8, 9}
+			raw := func(b ...byte) *dt.Node {
+				return dt.Cons(2, 0, dt.OID(smtp...), &dt.Node{Class: 2, Constructed: true, Tag: 0, Content: b})
+			}
+			mailPool := []*dt.Node{gen.GNEmail([]byte(sMail)), gen.GNOther(smtp, dt.Prim(0, 12, []byte(sMail))), gen.GNOther(smtp, dt.Prim(0, 12, []byte("other@example.org"))),
+				gen.GNOther(smtp, dt.Prim(0, 4, []byte(sMail))), gen.GNOther(smtp, dt.Prim(0, 2, []byte{5})), gen.GNOther(smtp, dt.Prim(0, 12, []byte{})),
+				raw(0x0c, 0x01, 'a', 0x00), raw(0x0c), gen.GNOther(smtp, dt.Prim(0, 12, []byte(strings.ToUpper(sMail)))), gen.GNEmail([]byte(strings.ToUpper(sMail))),
+				gen.GNOther([]int{1, 3, 6, 1, 4, 1, 311, 20, 2, 3}, dt.Prim(0, 12, []byte(sMail)))}
+			mailDesc := []string{"rfc822:subject-mailbox", "smtpUTF8:subject-mailbox", "smtpUTF8:other", "smtpUTF8:OCTET-STRING", "smtpUTF8:INTEGER", "smtpUTF8:empty",
+				"smtpUTF8:trailing-octet", "smtpUTF8:truncated", "smtpUTF8:subject-mailbox-uppercase", "rfc822:subject-mailbox-uppercase", "upn:subject-mailbox"}
+			for i, d := range pdesc {
+				if strings.HasPrefix(d, "email:") || strings.HasPrefix(d, "other:") || strings.HasPrefix(d, "dirName") {
+					mailPool, mailDesc = append(mailPool, pool[i]), append(mailDesc, d)
+				}
+			}
+			nm := len(mailPool)
+			all, alld := append(append([]*dt.Node{}, mailPool...), pool...), append(append([]string{}, mailDesc...), pdesc...)
+			mk := func(a, b *dt.Node) ([]byte, bool) {
+				v, err := gen.ViewCert(sbase.DER)
+				if err != nil {
+					return nil, false
+				}
+				v.SetSAN(false, a.Clone(), b.Clone())
+				return v.DER(), true
+			}
+			sdone := 0
+			for i := 0; i < nm; i++ {
+				for j := i + 1; j < len(all); j++ {
+					k++
+					if !stats.Mine(k) {
+						continue
+					}
+					d1, ok1 := mk(all[i], all[j])
+					d2, ok2 := mk(all[j], all[i])
+					if !ok1 || !ok2 {
+						continue
+					}
+					sdone++
+					c := c17Case{DER: d1, DER2: d2, What: "san", Base: sbase.Name, Names: []string{alld[i], alld[j]}, Perm: []int{1, 0}}
+					rec.Eval()
+					rec.Class("san_pairs_enumerated_smime")
+					if sig, msg := judgeC17(rec, c); msg != "" {
+						if rec.Report("c17", sig, msg, c) {
+							t.Fatalf("c17 pair [%s, %s] on %s: %s: %s", alld[i], alld[j], sbase.Name, sig, msg)
+						}
+					}
+				}
+			}
+			rec.Note("san-pairs-smime", fmt.Sprintf("%d e-mail-like entries x %d entries on %s (subject mailbox %s), %d pair cases in this shard", nm, len(all), sbase.Name, sMail, sdone))
+		}
 		rec.Exhaustive("all unordered pairs of the GeneralName pool as a two-entry SAN in both orders", base != nil)
 	}
 	// enumerated: every corpus certificate x five fixed permutations of its extension list
@@ -336,6 +414,110 @@ func TestC17(t *testing.T) {
 		}
 	}
 	rec.Exhaustive("extension list of every corpus certificate x {reverse, rotate left, rotate right, swap first two, swap last two}", true)
+	// enumerated: extension crossover. For every extension type of the corpus two certificates that carry
+	// it; into each, every donor extension (up to three distinct values per type, critical and not) of a type
+	// the certificate does not have yet is inserted once as the first and once as the last extension - a
+	// lint that reads two related extensions must not care which of them it meets first.
+	{
+		type donor struct {
+			oid string
+			n   *dt.Node
+		}
+		var donors []donor
+		perOID := map[string]int{}
+		seenVal := map[string]bool{}
+		carriers := map[string][]int{}
+		for i, o := range co.Certs {
+			v, err := gen.ViewCert(o.DER)
+			if err != nil || v.Extensions() == nil {
+				continue
+			}
+			for _, x := range v.Extensions().Children {
+				if len(x.Children) < 2 {
+					continue
+				}
+				k := string(x.Children[0].Content)
+				if len(carriers[k]) < 2 {
+					carriers[k] = append(carriers[k], i)
+				}
+				ev := string(x.Encode())
+				if perOID[k] < 3 && !seenVal[ev] && len(ev) < 600 {
+					seenVal[ev] = true
+					perOID[k]++
+					donors = append(donors, donor{k, x})
+				}
+			}
+		}
+		baseSet := map[int]bool{}
+		var baseIdx []int
+		var oids []string
+		for k := range carriers {
+			oids = append(oids, k)
+		}
+		sort.Strings(oids)
+		for _, k := range oids {
+			for _, i := range carriers[k] {
+				if !baseSet[i] {
+					baseSet[i] = true
+					baseIdx = append(baseIdx, i)
+				}
+			}
+		}
+		sort.Ints(baseIdx)
+		k, done := 0, 0
+		for _, bi := range baseIdx {
+			o := co.Certs[bi]
+			pc, ok := gen.ParseCert(o.DER)
+			v0, err := gen.ViewCert(o.DER)
+			if !ok || err != nil || v0.Extensions() == nil {
+				continue
+			}
+			has := map[string]bool{}
+			dup := false
+			for _, x := range v0.Extensions().Children {
+				if len(x.Children) > 0 {
+					dup = dup || has[string(x.Children[0].Content)]
+					has[string(x.Children[0].Content)] = true
+				}
+			}
+			if dup {
+				continue
+			}
+			for di, d := range donors {
+				if has[d.oid] {
+					continue
+				}
+				k++
+				if !stats.Mine(k) {
+					continue
+				}
+				mk := func(front bool) []byte {
+					v, _ := gen.ViewCert(o.DER)
+					e := v.Extensions()
+					if front {
+						e.Children = append([]*dt.Node{d.n.Clone()}, e.Children...)
+					} else {
+						e.Children = append(e.Children, d.n.Clone())
+					}
+					if pc.SelfSigned {
+						v.SelfSign()
+					}
+					return v.DER()
+				}
+				done++
+				c := c17Case{DER: mk(false), DER2: mk(true), What: "extensions", Base: o.Name, Names: []string{fmt.Sprintf("donor extension #%d (%v) last / first", di, dt.DecodeOID([]byte(d.oid)))}}
+				rec.Eval()
+				rec.Class("extension_crossover_enumerated")
+				if sig, msg := judgeC17(rec, c); msg != "" {
+					if rec.Report("c17", sig, msg, c) {
+						t.Fatalf("c17 %s + donor #%d: %s: %s", o.Name, di, sig, msg)
+					}
+				}
+			}
+		}
+		rec.Note("extension-crossover", fmt.Sprintf("%d carrier certificates x %d donor extensions (%d extension types); %d cases in this shard", len(baseIdx), len(donors), len(oids), done))
+		rec.Exhaustive("extension crossover (donor first vs last)", true)
+	}
 	rapidRun(t, "extensions", perShard(stats.Scale(4000, 120000)), func(rt *rapid.T) {
 		cc := gen.DrawCert(rt, 2, true)
 		v, err := gen.ViewCert(cc.DER)
